@@ -2,21 +2,45 @@ package flight12
 
 //symgo:pkg github.com/pion/dtls/v3/internal/flight/flight12
 //symgo:param NBODY quick=1 thorough=2
-//symgo:stub the cipher suite is a harness fake that reports "already initialised" (keys derived by an earlier flight4Parse call that was still waiting for the Finished); Conn is a harness fake. No cryptographic function is replaced: on this path flight4Parse calls none - which is the defect.
+//symgo:stub the cipher suite is a harness fake that reports "already initialised" (keys derived by an earlier flight4Parse call that was still waiting for the Finished) and whose PRF hash is a concrete 32-byte toy hash; Conn is a harness fake. No function of the library or the standard library is replaced: on the current tree flight4Parse calls no cryptographic function on this path - which is the defect.
 //symgo:assume handshake messages reach the flight handlers through the handshake cache as complete, unfragmented messages whose 12-byte header is consistent with the cache metadata
 
 import (
 	"context"
+	"hash"
 
 	"github.com/pion/dtls/v3/internal/ciphersuite"
 	dtlsflight "github.com/pion/dtls/v3/internal/flight"
 	"github.com/pion/dtls/v3/pkg/protocol/handshake"
 )
 
+// zzFinToyHash is a concrete (natively executable) stand-in for the PRF hash: a 32-byte polynomial fold of the
+// input. On the current tree flight4Parse never calls it on this path; once the server does check the client's
+// Finished, the real prf.PHash / crypto/hmac run on top of it and the entry stays natively replayable.
+type zzFinToyHash struct {
+	sum [32]byte
+	n   int
+}
+
+func (h *zzFinToyHash) Write(p []byte) (int, error) {
+	for _, b := range p {
+		i := h.n % 32
+		h.sum[i] = h.sum[i]*31 + b + byte(h.n)
+		h.n++
+	}
+	return len(p), nil
+}
+func (h *zzFinToyHash) Sum(b []byte) []byte { return append(b, h.sum[:]...) }
+func (h *zzFinToyHash) Reset()              { h.sum, h.n = [32]byte{}, 0 }
+func (h *zzFinToyHash) Size() int           { return 32 }
+func (h *zzFinToyHash) BlockSize() int      { return 64 }
+
+func zzFinNewToyHash() hash.Hash { return &zzFinToyHash{} }
+
 // zzFinServerRun builds the server's cache of one full handshake (bodies given) with the client's verify_data
 // vd and runs the real flight4Parse on it.
 func zzFinServerRun(nbody int, hvr, hasCert, hasSKE, hasCReq bool, bodies map[string][]byte, vd []byte) Flight {
-	suite := &zzFinSuite{auth: ciphersuite.AuthenticationTypeCertificate, kx: ciphersuite.KeyExchangeAlgorithmEcdhe, initialized: true}
+	suite := &zzFinSuite{auth: ciphersuite.AuthenticationTypeCertificate, kx: ciphersuite.KeyExchangeAlgorithmEcdhe, initialized: true, hashFunc: zzFinNewToyHash}
 	state := zzFinState(false, suite, 0)
 	state.MasterSecret = bodies["master_secret"]
 	cfg := zzFinConfig()
